@@ -75,3 +75,18 @@ package types
 //@ loop 0: invariant forall i :: 0 <= i && i < #i ==> ams[i].MemberID != mid
 //@ func (ams AssignedMembers) MemberIDs
 //@ abstract
+
+// ---- C04: end of group creation -------------------------------------------------------------------------
+//@ func (ms Members) HaveMalicious
+//@ pure
+//@ ensures result <==> (exists j :: 0 <= j && j < len(ms) && ms[j].IsMalicious)
+//@ loop 0: invariant forall j :: 0 <= j && j < #i ==> !ms[j].IsMalicious
+//@ func (cb TSSCallback) OnGroupCreationCompleted
+//@ trusted
+//@ modifies Other, Bank
+//@ func (cb TSSCallback) OnGroupCreationFailed
+//@ trusted
+//@ modifies Other, Bank
+//@ func (cb TSSCallback) OnGroupCreationExpired
+//@ trusted
+//@ modifies Other, Bank
